@@ -13,9 +13,24 @@ pub fn content(rng: &mut Rng, n: usize) -> Vec<u8> {
 }
 
 pub fn key(rng: &mut Rng) -> [u8; 32] {
-    match rng.below(6) {
+    match rng.below(8) {
         0 => [0u8; 32],
         1 => [0xFF; 32],
+        2 => {
+            // keys that coincide with constants the implementation uses internally: the IV in
+            // little-endian byte order (a keyed hasher whose key words equal the IV), or
+            // big-endian, or one bit away from it
+            let mut k = [0u8; 32];
+            for (i, w) in specmodel::IV.iter().enumerate() {
+                let b = if rng.chance(3, 4) { w.to_le_bytes() } else { w.to_be_bytes() };
+                k[4 * i..4 * i + 4].copy_from_slice(&b);
+            }
+            if rng.chance(1, 4) {
+                let bit = rng.usize_below(256);
+                k[bit / 8] ^= 1 << (bit % 8);
+            }
+            k
+        }
         _ => rng.array32(),
     }
 }
@@ -125,6 +140,14 @@ pub fn hostile_seek(rng: &mut Rng) -> u64 {
             let j = rng.below(41) as i64 - 20;
             let base = (64u64 << 32) as i128 + (j as i128) * 64 + rng.below(64) as i128;
             base as u64
+        }
+        4 if rng.chance(1, 3) => {
+            // block counter near k * 2^32 for k >= 2 (carry into a high word that is already non-zero,
+            // even and odd)
+            let kmax = if rng.chance(1, 2) { 14 } else { 1 << 25 };
+            let k = 2 + rng.below(kmax);
+            let j = rng.below(41) as i128 - 20;
+            (((k as i128) << 32) * 64 + j * 64 + rng.below(64) as i128) as u64
         }
         4 => {
             if rng.chance(1, 2) {
